@@ -1545,7 +1545,7 @@ Proof.
   rewrite ?classes_nil, ?classes_nil', app_nil_r in HI.
   pose proof (isotopes_derives (m_first m) (m_rest m) Hpf Hz) as HZ.
   unfold mat_card_toks. rewrite !classes_app, !classes_flat_map.
-  change (classes [("TEXT", "m"); ("NUMBER", show_nat (m_num m))]) with ["TEXT"; "NUMBER"].
+  change (classes [("TEXT", "m"); ("NUMBER", show_Z (m_num m))]) with ["TEXT"; "NUMBER"].
   match goal with
   | |- Derives _ _ (?A ++ ?B ++ ?C ++ ?D ++ ?E ++ ?F) =>
       replace (A ++ B ++ C ++ D ++ E ++ F) with ((A ++ B ++ C) ++ (D ++ E) ++ F)
@@ -1605,7 +1605,7 @@ Proof.
   pose proof (intro_derives G Hb Hth_intro (t_lead m) _ (t_pad m) None Hcl) as HI.
   rewrite ?classes_nil, ?classes_nil', app_nil_r in HI.
   unfold mt_card_toks. rewrite !classes_app, !classes_flat_map.
-  change (classes [("TEXT", "mt"); ("NUMBER", show_nat (t_num m))]) with ["TEXT"; "NUMBER"].
+  change (classes [("TEXT", "mt"); ("NUMBER", show_Z (t_num m))]) with ["TEXT"; "NUMBER"].
   match goal with
   | |- Derives _ _ (?A ++ ?B ++ ?C ++ ?D ++ ?E) =>
       replace (A ++ B ++ C ++ D ++ E) with ((A ++ B ++ C) ++ (D ++ E))
@@ -1758,7 +1758,7 @@ Proof.
   - rewrite (start_ok "data" "data_input") by (simpl; auto). apply (data_derivable _ Hdata). exact H.
   - rewrite (start_ok "material" "material") by (simpl; auto 10). apply (material_derivable _ Hmat). exact H.
   - rewrite (start_ok "thermal" "thermal_mat") by (simpl; auto 10). apply (thermal_derivable _ Hth).
-    unfold mtcard_shape. apply negb_true_iff in H. apply Nat.eqb_neq in H. exact H.
+    unfold mtcard_shape. exact H.
   - rewrite (start_ok "tally" "tally") by (simpl; auto 10). apply (tally_derivable _ Htal). exact H.
   - rewrite (start_ok "tally_seg" "tally") by (simpl; auto 10). apply (tallyseg_derivable _ Hseg). exact H.
   - rewrite (start_ok "param_only" "param_data_input") by (simpl; auto 10). apply (sdef_derivable _ Hsd). exact H.
